@@ -541,13 +541,15 @@ func runC15Chain(c c15ChainCase) *pbt.Verdict {
 				s.clean = false
 			}
 			// -- feeds side
-			feedsMiss, tight, tightClock, feedsDetail := ref.No, int64(1<<40), "", ""
+			// the validator is missed iff some feed is missed, i.e. iff the LARGEST per-feed margin is positive:
+			// that feed and its tightest clock decide
+			feedsMiss, tight, tightClock, feedsDetail := ref.No, int64(-1<<40), "", ""
 			for _, f := range feeds {
 				p, has := s.prices[f.SignalID]
 				in := ref.FeedsMissInput{Now: now, Height: h, Active: true, Since: s.since, Grace: grace, UpdTime: updTime, UpdBlock: updBlock,
 					Interval: f.Interval, HasPrice: has, PriceTime: p.ts, PriceBlock: p.h, BlockSeconds: feedstypes.MaxGuaranteeBlockTime}
 				r, m, clock := ref.FeedsMiss(in)
-				if m < tight {
+				if m > tight {
 					tight, tightClock = m, clock
 				}
 				if r == ref.Yes || (r == ref.Either && feedsMiss == ref.No) {
@@ -581,7 +583,7 @@ func runC15Chain(c c15ChainCase) *pbt.Verdict {
 				switch genuine {
 				case ref.No:
 					v.Failf("C15/deactivated-without-miss", "val%d (active since %d) was deactivated at height %d time %d without a genuine miss: "+
-						"expiring requests it was chosen for:%s (none is a miss); feeds: update clock (%d, height %d) grace %d, tightest clock %s margin %d",
+						"expiring requests it was chosen for:%s (none is a miss); feeds: update clock (%d, height %d) grace %d, deciding clock %s margin %d",
 						i, s.since, h, now, expDetail, updTime, updBlock, grace, tightClock, tight)
 					return false
 				case ref.Either:
